@@ -12,6 +12,7 @@ from harness.framework import Suite
 
 PID = "C01"
 TRANSLATE = True
+READY = False
 LEAN_MODS = ["SwcVerif.Props.C01"]
 THEOREMS = []
 TRUSTED = ["hand-written writer/reader text models (Model/SwcText.lean) tied by the c01.roundtrip correspondence; constants pinned via Gen/Consts.lean"]
@@ -81,16 +82,54 @@ class RoundTrip(Suite):
                         with open(src, "w", encoding="utf-8") as f:
                             f.write(text)
                 back = Tree.from_swc(src)
-                hist.append({"text_head": text[:300], "n": back.number_of_nodes(), "pid": back.pid().tolist(), "type": back.type().tolist(),
+                hist.append({"text_head": text[:300], "full_text": text if len(hist) == 0 and back.number_of_nodes() <= 80 else None, "n": back.number_of_nodes(), "pid": back.pid().tolist(), "type": back.type().tolist(),
                              "id": back.id().tolist(),
                              "x": back.x().astype(np.float64).tolist(), "y": back.y().astype(np.float64).tolist(),
                              "z": back.z().astype(np.float64).tolist(), "r": back.r().astype(np.float64).tolist(),
                              "comments": list(back.comments), "source_attr": back.source})
                 cur = back
-            return {"passes": hist, "text": text if len(text) < 4000 else text[:4000]}
+            return {"passes": hist, "text": text if len(text) < 4000 else text[:4000], "first_text": hist[0]["full_text"] if t.number_of_nodes() <= 80 else None,
+                    "source_text": t.source}
         finally:
             if tmp:
                 shutil.rmtree(tmp, ignore_errors=True)
+
+    def lines(self, case, res):
+        from harness import swctext as st
+
+        if "exc" in res or not res.get("first_text"):
+            return []
+        t = case["tree"]
+        n = t["n"]
+        xyz = np.array(t["xyz"], dtype=np.float32)
+        r = np.array(t["r"], dtype=np.float32)
+        cols = [xyz[:, 0], xyz[:, 1], xyz[:, 2], r]
+        nz = [4 * k + c for k in range(n) for c in range(4) if st.neg_zero(cols[c][k])]
+        src = case["source"]
+        if src is False:
+            srcarg = "none"
+        else:
+            srcarg = st.cps(src if isinstance(src, str) else (res["source_text"] or "Unknown"))
+        cm = ";".join(st.cps(c) for c in case["comments"]) if case["comments"] else "none"
+        w = (f"swcwrite off={case['offset']} src={srcarg} wc={int(case['with_comments'])} ids={gen.ints(range(n))} types={gen.ints(t['types'])} "
+             f"pids={gen.ints(t['pids'])} " + " ".join(f"{nm}={gen.ints([st.q4(v) for v in col])}" for nm, col in zip("xyzr", cols))
+             + f" nz={gen.ints(nz)} c={cm}")
+        text = res["first_text"]
+        h = res["passes"][0]
+
+        def back(got):
+            m = st.parse_model_read(got)
+            if "error" in m or m["n"] != h["n"]:
+                return False
+            if [x["id"] for x in m["rows"]] != h["id"] or [x["pid"] for x in m["rows"]] != h["pid"] or [x["type"] for x in m["rows"]] != h["type"]:
+                return False
+            for c in "xyzr":
+                if [float(np.float32(float(x[c]))) for x in m["rows"]] != h[c]:
+                    return False
+            return m["comments"] == h["comments"]
+
+        return [(w, st.cps(text)),
+                (f"swcread nx=0 reset=1 cp={st.cps(text)}", st.Expect(back, "Tree.from_swc(text) = " + repr({k: h[k] for k in ('id', 'pid', 'type', 'x', 'comments')})[:1200]))]
 
     def oracle(self, case, res):
         if "exc" in res:
